@@ -434,20 +434,21 @@ def loadable (S : Spec) (c : Config) (fs : FS) : Prop :=
 
 /-! ### several processes: any schedule -/
 
-/-- one scheduler tick: process `i` performs its next step (nothing happens if it has finished) -/
-def tick (S : Spec) (i : Nat) (cfgs : List (Prog Bool)) (fs : FS) : List (Prog Bool) × FS × Trace :=
-  match cfgs[i]? with
-  | some (.act o k) =>
+/-- one scheduler tick: process `i` performs its next step (nothing happens if it has finished);
+    the process table is a function, so any number of processes is covered -/
+def tick (S : Spec) (i : Nat) (ps : Nat → Prog Bool) (fs : FS) : (Nat → Prog Bool) × FS × Trace :=
+  match ps i with
+  | .act o k =>
       let r := result fs o
-      (cfgs.set i (k r), applyOp S fs o, [⟨i, o, r⟩])
-  | _ => (cfgs, fs, [])
+      (fun j => if j = i then k r else ps j, applyOp S fs o, [⟨i, o, r⟩])
+  | _ => (ps, fs, [])
 
-/-- run a schedule (a list of process indices) -/
-def runSched (S : Spec) : List Nat → List (Prog Bool) → FS → List (Prog Bool) × FS × Trace
+/-- run a schedule (a list of process indices): remaining programs, file system, the interleaved trace -/
+def runSched (S : Spec) : List Nat → (Nat → Prog Bool) → FS → (Nat → Prog Bool) × FS × Trace
   | [], ps, fs => (ps, fs, [])
   | i :: sch, ps, fs =>
-      let (ps1, fs1, t1) := tick S i ps fs
-      let (ps2, fs2, t2) := runSched S sch ps1 fs1
-      (ps2, fs2, t1 ++ t2)
+      let x := tick S i ps fs
+      let y := runSched S sch x.1 x.2.1
+      (y.1, y.2.1, x.2.2 ++ y.2.2)
 
 end Occa.BuildFS
